@@ -91,6 +91,40 @@ def check_cleanup_guards(ctx: Ctx) -> None:
                         continue
                     ok_all = False
                 single = ok_all and strong
+                # ... and when the node that is re-linked is not the heading itself but something inside it (the italic wrapper
+                # of a bold-italic heading), it must in turn be the heading's only child: otherwise the rest of the heading's
+                # text sits next to it and the heading is only partly bold
+                heading_objs = {o for o, cls, lab in tests if lab == "T" and cls and all(c.endswith("Heading") for c in cls)}
+                if single and obj not in heading_objs:
+                    def leaf_values(e_: ast.AST, at_: Node, depth_: int = 0) -> list[tuple[ast.AST, Node]]:
+                        """what the name can hold, through plain copies (x = y = helper result ...)"""
+                        if isinstance(e_, ast.Name) and depth_ < 5:
+                            out_: list[tuple[ast.AST, Node]] = []
+                            for d in flow.reaching(at_, e_.id):
+                                if d.kind == "assign" and d.value is not None:
+                                    out_ += leaf_values(d.value, d.node, depth_ + 1)
+                                else:
+                                    out_.append((ast.Constant(value=Ellipsis), d.node))
+                            return out_
+                        return [(e_, at_)]
+
+                    xs: list[tuple[ast.AST, Node]] = leaf_values(tg.value, n)
+
+                    def only_child_of_heading(v: ast.AST, at: Node) -> bool:
+                        cv = canon(v, at)
+                        for h_ in heading_objs:
+                            if cv == f"{h_}.children[0]":
+                                for at2 in (at, n):
+                                    for a, truth, b in guard_atoms(prog, fi, at2):
+                                        if isinstance(a, ast.Compare) and len(a.ops) == 1 and isinstance(a.comparators[0], ast.Constant) and a.comparators[0].value == 1 \
+                                                and ((truth and isinstance(a.ops[0], ast.Eq)) or (not truth and isinstance(a.ops[0], ast.NotEq))) \
+                                                and canon(a.left, b) == f"len({h_}.children)":
+                                            return True
+                        return False
+
+                    xs = [(v, at) for v, at in xs if not (isinstance(v, ast.Constant) and v.value is None)]  # (None never gets here: attribute store)
+                    if not (xs and all(only_child_of_heading(v, at) for v, at in xs)):
+                        single = False
             ctx.ob("R-CLEANUP", f"{fi.qual} :: {norm(n.ast)}", heading and strong and single and val_ok,
                    "a cleanup may only re-link a heading whose *single* child is strong emphasis to that child's own children "
                    f"(heading test: {heading}, single-child test: {single}, strong test: {strong}, keeps content: {val_ok})", where(fi, n))
